@@ -4,6 +4,7 @@
   order they started) are read back one by one, whatever their number.
 -/
 import Mcp.Props.C02Wire
+import Mcp.Gen.Writers
 namespace Mcp.Props.C09
 open Mcp.Str Mcp.Json Mcp.Escape Mcp.Props.C02
 
@@ -17,5 +18,18 @@ theorem C09_sse_stream_reader (ms : List (Text × Json)) (hid : ∀ m ∈ ms, No
 theorem C09_sse_events_never_merge (es : List (Text × Text)) (h : ∀ e ∈ es, GoodEvent e) :
     (parseSSE ((es.map (fun e => writeEvent e.1 e.2)).flatten)).length = es.length := by
   rw [C02_sse_stream_transparent es h]; simp
+
+/-- Legacy SSE stream with keep-alive comments: whatever sequence of events and keep-alive comments the legacy server
+    writes on one connection (each as a whole frame — `C09_all_writers_framed` has `handleKeepAlive`, `handleNotifications`
+    and `handleEventQueue` under `session.writeMu`), a WHATWG reader dispatches exactly the events' data, in order. -/
+theorem C09_legacy_stream_with_keepalives (items : List LegacyItem) (h : ∀ i ∈ items, i.good) :
+    parseSSE ((items.map LegacyItem.bytes).flatten) = (items.map LegacyItem.payload).flatten :=
+  C02_legacy_stream_transparent items h
+
+/-- T-gen: the keep-alive frame of the model is, byte for byte, the one string literal `handleKeepAlive` writes (a comment
+    line and the blank line that ends it). A keep-alive without its blank line, or one that is not a comment, changes
+    this regenerated fact. -/
+theorem C09_keepalive_frame_is_the_sources :
+    Mcp.Gen.keepAliveFrames = [LegacyItem.keepalive.bytes] := by decide
 
 end Mcp.Props.C09
